@@ -54,7 +54,9 @@ class EmbedModel(object):
             break
         if self.merger is None:
             raise Inconclusive('_embed: the `_Merger(inner, stars)` step was not found')
-        self.sides = Sides(self.proto, [(self.p_outer, 'outer'), (self.merger, 'inner')])
+        # 'rawinner' is the inner operand *before* it is merged with the forwarded
+        # stars: guards on it are understood, but they are not guards on 'inner'
+        self.sides = Sides(self.proto, [(self.p_outer, 'outer'), (self.merger, 'inner'), (self.p_inner, 'rawinner')])
         self.ret_paths = []
         for p in self.paths:
             if p.status == 'return':
